@@ -168,9 +168,33 @@ Definition ex_linked := link true false [0] ex_prog.
    c = g() is impure and stays; "unused" and "dead" go *)
 Example ex_linked_live :
   mark ex_linked (default_fuel ex_linked) =
-  Some [IPart 1 1; IPart 0 2; IPart 0 3; IPart 0 1; IPart 1 2; IFile 1; IFile 0].
+  Some [IPart 1 2; IFile 1; IPart 1 1; IPart 0 2; IPart 0 3; IPart 0 1; IFile 0].
 Proof. vm_compute. reflexivity. Qed.
 Example ex_parts_check :
   HarnessBuild.parts_ok (true, [(3%Z, [([1%Z], [2%Z], true)]); (0%Z, [([3%Z], [1%Z], true); ([2%Z], [], false)])],
                                [(true, [], [], 0%Z); (true, [1%Z], [1%Z; 2%Z], 0%Z); (true, [3%Z], [1%Z], 0%Z); (false, [2%Z], [], 0%Z)]) = true.
+Proof. vm_compute. reflexivity. Qed.
+
+(* ---- Scope.v: shadowing and closures.
+   file 0 (entry):  import {t2} ; var t1 = function (t3) { t3; t2 };   t1(function () { var t2; t2 });   function t4() { t5 }
+   file 1:          let t2 = 1;   var t3 = t9();   class t5 { m(t2) { t3 } }
+   t1's closure uses t2 (import) but NOT t3 (parameter); the call statement uses t1 only
+   (its t2 is a local); dead: t4 and therefore t5 ---- *)
+From V Require Import C04.Scope C04.ScopeProofs.
+Definition ex_sprog : list sfile :=
+  [ mkSFile true true
+      [ SSImport [];
+        SSLocal [(PId 1, Some (XFun [3] [] [XId 3; XId 2]))];
+        SSExpr (XCall (XId 1) [XFun [] [2] [XId 2]]);
+        SSFunction 4 [] [] [XId 5] ];
+    mkSFile true false
+      [ SSLocal [(PId 2, Some XLit)];
+        SSLocal [(PId 3, Some (XCall (XId 9) []))];
+        SSClass 5 None [XFun [2] [] [XId 3]] ] ].
+Example ex_fv_shadow : fv [] (XFun [3] [] [XId 3; XId 2]) = [2] /\ fv [] (XCall (XId 1) [XFun [] [2] [XId 2]]) = [1].
+Proof. vm_compute. auto. Qed.
+Definition ex_slinked := link_program true false [0] ex_sprog.
+Example ex_slinked_live :
+  mark ex_slinked (default_fuel ex_slinked) =
+  Some [IPart 1 2; IFile 1; IPart 1 1; IPart 0 2; IPart 0 3; IPart 0 1; IFile 0].
 Proof. vm_compute. reflexivity. Qed.
